@@ -1212,6 +1212,7 @@ class Grid:
                 grid=self,
                 boundary_width=ax_boundary_width,
                 keep_coords=keep_coords,
+                inputs=[da],
             )[0]
 
             ax_metric_weighted = metric_weighted[ax.name]
